@@ -6,7 +6,7 @@
  R3  at every `?` the Break arm only converts the residual into the return value; no Ok is reachable from it
  R4  mapped views refuse (UnexpectedEof) before touching memory (shared with C13.R1)
 """
-from facts import Undecided, loc, tstr, callee_name, callee_written, reads_of_stmt, reads_of_term, operand_place, subterms
+from facts import Undecided, loc, tstr, callee_name, callee_written, reads_of_stmt, reads_of_term, operand_place, subterms, resolve_ref_local
 from guards import try_sites, ok_blocks, must_pass_through, edge_facts, strip_casts
 import mapped
 
@@ -173,6 +173,29 @@ def check_config(ctx, F, tag, views=True):
                 detail = "unrecognised `?` shape: %s" % {k: s[k] for k in ("cont_block", "break_block", "residual_ok")}
             ctx.ob("C14.R3.break-arm-propagates", key + tag, loc(s["sp"]), good, "cfg-shape", detail, nontrivial=False)
 
+    # ---------- R2b buffering writers must be flushed (their Drop swallows the error of the final write)
+    nbuf = 0
+    for b in F.all_bodies():
+        for bi, t in b.calls():
+            cn = callee_name(t)
+            if cn.startswith("std::io::BufWriter::<") or cn.startswith("std::io::LineWriter::<"):
+                if cn.split("::")[-1].split("<")[0] not in ("new", "with_capacity"):
+                    continue
+                nbuf += 1
+                w = t["dest"]["l"] if not t["dest"]["p"] else None
+                flushes = []
+                for bj, t2 in b.calls():
+                    n2 = callee_written(t2)
+                    if n2 in ("std::io::Write::flush",) or callee_name(t2).endswith("::into_inner"):
+                        r = resolve_ref_local(b, t2["args"][0]) if t2["args"] else None
+                        q = operand_place(t2["args"][0]) if t2["args"] else None
+                        if w is not None and (r == w or (q is not None and not q["p"] and q["l"] == w)):
+                            flushes.append(bj)
+                oks = ok_blocks(b).get("Ok", []) or b.return_blocks()
+                good = w is not None and bool(flushes) and t["target"] is not None and must_pass_through(b, t["target"], flushes, to_blocks=oks)
+                ctx.ob("C14.R2.buffered-writer-flushed", "%s|%s%s" % (b.name, cn.split("::<")[0], tag), loc(t["sp"]), good, "must-pass-through",
+                       "a buffering writer is created here; every path to a successful return must call flush()/into_inner() on it (its Drop discards the error of the last write): %s" % good)
+    ctx.count("buffering-writers" + tag, nbuf)
     # ---------- R2
     ctx.ob("C14.R2.no-partial-io", "crate" + tag, "src/", not partial_calls, "who-may-call",
            "calls to partial-I/O primitives (count must be 0): %s" % partial_calls)
